@@ -152,6 +152,13 @@ class Program:
                     out.append(f)
         return out
 
+    def trait_method(self, trait, self_ty, name):
+        """the function implementing `name` of `trait` for the type printed as self_ty"""
+        for f in self.fns.values():
+            if f.name == name and f.impl_trait == trait and f.impl_self_ty == self_ty and f.kind == "AssocFn":
+                return f
+        raise FactsError("anchor <%s as %s>::%s not found in the crate" % (self_ty, trait, name))
+
     def enum_discrs(self, adt):
         a = self.adts.get(adt)
         if not a or a["kind"] != "enum":
